@@ -89,6 +89,14 @@ from xdsl.utils.mlir_lexer import MLIRTokenKind, StringLiteral
 from .base_parser import BaseParser  # noqa: TID251
 
 
+class _HexIntegerLiteral(int):
+    """
+    An integer that was written as a hexadecimal literal. Where a float is expected,
+    such a literal is the bit pattern of the value, as printed for NaN, infinities and
+    values without a short decimal representation.
+    """
+
+
 @dataclass
 class AttrParser(BaseParser):
     """
@@ -1056,6 +1064,21 @@ class AttrParser(BaseParser):
 
         return res
 
+    def _parse_float_or_bit_pattern(self, type: AnyFloat) -> float:
+        """
+        Parse a float literal, or a hexadecimal integer literal standing for the bit
+        pattern of a float of the given type.
+        """
+        token = self._current_token
+        if token.kind == MLIRTokenKind.INTEGER_LIT and token.text[:2] in ("0x", "0X"):
+            self._consume_token(MLIRTokenKind.INTEGER_LIT)
+            return self._float_from_literal(
+                _HexIntegerLiteral(token.kind.get_int_value(token.span)),
+                type,
+                token.span,
+            )
+        return self.parse_float()
+
     def _parse_builtin_densearray_attr(self) -> DenseArrayBase | None:
         self.parse_characters("<", " in dense array")
         pos = self.pos
@@ -1083,7 +1106,7 @@ class AttrParser(BaseParser):
         else:
             values = self.parse_comma_separated_list(
                 self.Delimiter.NONE,
-                lambda: self.parse_float(),
+                lambda: self._parse_float_or_bit_pattern(element_type),
             )
             res = DenseArrayBase.from_list(element_type, values)
 
@@ -1145,14 +1168,14 @@ class AttrParser(BaseParser):
                 parser.raise_error("Expected integer value", at_position=self.span)
             return int(self.value)
 
-        def to_float(self, parser: AttrParser) -> float:
+        def to_float(self, parser: AttrParser, type: AnyFloat) -> float:
             """
             Convert the element to a float value. Raises an error if the type
             is compatible.
             """
             if isinstance(self.value, tuple):
                 parser.raise_error("No conversion from complex to float")
-            return float(self.value)
+            return parser._float_from_literal(self.value, type, self.span)
 
         def to_complex(
             self, parser: AttrParser, type: ComplexType
@@ -1160,7 +1183,14 @@ class AttrParser(BaseParser):
             assert isinstance(self.value, tuple)
 
             if isinstance(type.element_type, AnyFloat):
-                return (float(self.value[0]), float(self.value[1]))
+                return (
+                    parser._float_from_literal(
+                        self.value[0], type.element_type, self.span
+                    ),
+                    parser._float_from_literal(
+                        self.value[1], type.element_type, self.span
+                    ),
+                )
 
             match type.element_type:
                 case IntegerType():
@@ -1174,7 +1204,7 @@ class AttrParser(BaseParser):
             type: AnyFloat | IntegerType | IndexType | ComplexType,
         ):
             if isinstance(type, AnyFloat):
-                return self.to_float(parser)
+                return self.to_float(parser, type)
 
             match type:
                 case IntegerType():
@@ -1218,6 +1248,8 @@ class AttrParser(BaseParser):
         elif self._current_token.kind == MLIRTokenKind.INTEGER_LIT:
             token = self._consume_token(MLIRTokenKind.INTEGER_LIT)
             value = token.kind.get_int_value(token.span)
+            if token.text[:2] in ("0x", "0X") and not is_negative:
+                value = _HexIntegerLiteral(value)
         elif self._current_token.kind == MLIRTokenKind.FLOAT_LIT:
             token = self._consume_token(MLIRTokenKind.FLOAT_LIT)
             value = token.kind.get_float_value(token.span)
@@ -1233,6 +1265,25 @@ class AttrParser(BaseParser):
 
         return value, span
 
+    def _float_from_literal(
+        self, value: bool | int | float, type: AnyFloat, span: Span
+    ) -> float:
+        """
+        Convert a parsed number to a float of the given type. A hexadecimal integer
+        literal is the bit pattern of the value, as in
+        `parse_optional_builtin_int_or_float_attr`.
+        """
+        if not isinstance(value, _HexIntegerLiteral):
+            return float(value)
+        try:
+            raw = value.to_bytes(type.compile_time_size, "little")
+        except OverflowError:
+            self.raise_error(
+                f"Hexadecimal float literal out of range for type {type}",
+                at_position=span,
+            )
+        return next(iter(type.iter_unpack(raw)))
+
     def _parse_optional_complex(
         self,
     ) -> tuple[tuple[float, float] | tuple[int, int] | tuple[bool, bool], Span] | None:
@@ -1247,6 +1298,12 @@ class AttrParser(BaseParser):
         imag, _ = self._parse_bool_int_or_float()
         real_ty = type(real)
         imag_ty = type(imag)
+        if {real_ty, imag_ty} <= {_HexIntegerLiteral, int} or {real_ty, imag_ty} == {
+            _HexIntegerLiteral,
+            float,
+        }:
+            # A hexadecimal literal is an integer, or the bit pattern of a float
+            real_ty = imag_ty
         if real_ty != imag_ty:
             self.raise_error(
                 "Complex value must be either (float, float) or (int, int)"
